@@ -36,6 +36,7 @@ class Prov:
 
     def __init__(self, summary: Summary | None = None) -> None:
         self.binders: dict[int, tuple] = {}  # bv id -> (iter term, position path)
+        self.summary = summary
         if summary is not None:
             for ev, _ in summary.walk():
                 if ev.kind == "loop":
@@ -136,6 +137,19 @@ class Prov:
             return self.vals(it[2], depth + 1)
         if o == "slice":
             return self.elems(it[1], depth + 1)
+        if o == "new" and it[1] in ("list", "set") and self.summary is not None:
+            out = []
+            init = it[4] if len(it) > 4 else None
+            if op(init) in ("list", "set", "tuple"):
+                out.extend(self.elems(init, depth + 1))
+            for ev, _ in self.summary.mutations_of(it):
+                if ev.kind == "expr" and op(ev.a) == "call":
+                    m, args = callee_name(ev.a), ev.a[2]
+                    if m in ("append", "add", "insert") and args:
+                        out.extend(self.vals(args[-1], depth + 1))
+                    elif m in ("extend", "update") and args:
+                        out.extend(self.elems(args[0], depth + 1))
+            return out or [("elemof", it)]
         return [("elemof", it)]
 
     # -- record field cover ---------------------------------------------------------------
@@ -308,6 +322,14 @@ def index_method_entries(cx: Cx, fn: FunctionInfo, ob_id: str) -> dict[str, list
             out.setdefault(table, []).append(
                 Entry(table, frozenset(f for r, f in kf if r != "?"), any(r == "?" for r, _ in kf), ev.b, _value_field(prov, ev.b), _conds(ctx, s, ev), where(fn, ev.line), fn.qualname, ev.line, prov.record_of(tgt[2]))
             )
+    for ev, ctx in s.distinct_events("expr"):
+        c = ev.a
+        if op(c) == "call" and callee_name(c) == "setdefault" and op(c[1]) == "attr" and op(c[1][1]) == "attr" and c[1][1][1] == ("param", self_name) and len(c[2]) == 2:
+            table = c[1][1][2]
+            kf = prov.fields(c[2][0])
+            out.setdefault(table, []).append(
+                Entry(table, frozenset(f for r, f in kf if r != "?"), any(r == "?" for r, _ in kf), c[2][1], _value_field(prov, c[2][1]), _conds(ctx, s, ev) + ((("absent",), True),), where(fn, ev.line), fn.qualname, ev.line, prov.record_of(c[2][0]))
+            )
     return out
 
 
@@ -318,6 +340,8 @@ def self_state_writes(cx: Cx, cls_q: str, ob_id: str) -> list[tuple[FunctionInfo
     for m in ci.methods.values():
         if m.self_name is None or m.is_classmethod:
             continue
+        if cx.S.inlinable(m) and _has_caller(cx, m):
+            continue  # a helper unknown to the rules: its writes are attributed to its callers (inlined)
         s = cx.summary(m, ob_id)
         me = ("param", m.self_name)
         for ev, ctx in s.walk():
@@ -341,6 +365,16 @@ def self_state_writes(cx: Cx, cls_q: str, ob_id: str) -> list[tuple[FunctionInfo
                 if op(t) == "item" and op(t[1]) == "attr" and t[1][1] == me:
                     out.append((m, t[1][2], ev, "delete"))
     return out
+
+
+def _has_caller(cx: Cx, m: FunctionInfo) -> bool:
+    import ast as _ast
+
+    for mod in cx.model.modules.values():
+        for n in _ast.walk(mod.tree):
+            if isinstance(n, _ast.Call) and isinstance(n.func, _ast.Attribute) and n.func.attr == m.name:
+                return True
+    return False
 
 
 MUTATORS = {"append", "extend", "insert", "remove", "pop", "clear", "sort", "reverse", "update", "add", "discard", "setdefault", "popitem", "__setitem__", "__delitem__", "cache_clear"}
@@ -783,3 +817,28 @@ def _unset(t):
     if op(t) == "call" and op(t[1]) == "builtin" and t[1][1] in ("set", "frozenset", "list", "tuple") and len(t[2]) == 1:
         return t[2][0]
     return t
+
+
+def dict_items(s: Summary | None, t) -> dict | None:
+    """Constant-keyed items of a dict-valued term (display, or local dict with later `d[k] = v` stores)."""
+    d = t[4] if op(t) == "new" and len(t) > 4 else t
+    if op(t) == "new" and t[1] != "dict":
+        return None
+    if op(d) != "dict":
+        return None if op(t) != "new" else {}
+    out = {}
+    for k, v in d[1]:
+        if k is None or not is_const(k):
+            return None
+        out[k[1]] = v
+    if op(t) == "new" and s is not None:
+        for ev, _ in s.mutations_of(t):
+            if ev.kind == "store" and op(ev.a) == "item" and ev.a[1] == t and is_const(ev.a[2]):
+                out[ev.a[2][1]] = ev.b
+            elif ev.kind == "expr" and callee_name(ev.a) == "update" and ev.a[2] and op(ev.a[2][0]) in ("dict",):
+                for k, v in ev.a[2][0][1]:
+                    if k is not None and is_const(k):
+                        out[k[1]] = v
+            else:
+                return None
+    return out
